@@ -39,7 +39,8 @@ def _cert(W):
 CERT_REAL = CheckFn("c07-cert-real", "Model.EinsumCert", "einsum_cert_real", _cert(RealW), imports=_IMP)
 CERT_TROP = CheckFn("c07-cert-trop", "Model.EinsumCert", "einsum_cert_trop", _cert(TropW), imports=_IMP)
 CERT_BOOL = CheckFn("c07-cert-bool", "Model.EinsumCert", "einsum_cert_bool", _cert(Bool), imports=_IMP)
-CHECKFNS = [REAL, TROP, BOOL, VIT, CERT_REAL, CERT_TROP, CERT_BOOL]
+CERT_VIT = CheckFn("c07-cert-vit", "Model.EinsumCert", "viterbi_cert_trop", _cert(TropW), imports=_IMP)
+CHECKFNS = [REAL, TROP, BOOL, VIT, CERT_REAL, CERT_TROP, CERT_BOOL, CERT_VIT]
 
 ASSUMPTIONS = [
     "PhysicalAxis objects are numbered by the harness (uid); fresh axes made by the library (freshen, default_to, unification splits) are only required to be fresh",
@@ -432,20 +433,22 @@ def run(tier, seed):
         cf = checkfn_of(case)
         by.setdefault(cf.kind, (cf, []))[1].append((ci, wire_case(case, res, spy, ptr), res, exc))
         nenv = math.prod(max(n, 1) for sp in case["ops"] for _, n in sp["paxes"])
-        if case["ops"] and case["variant"] != "vit" and nenv > CERT_LIMIT:
+        if case["ops"] and nenv > CERT_LIMIT:
             hist.setdefault("certificate_skipped_too_large", {"n": 0})["n"] += 1
-        if case["ops"] and case["variant"] != "vit" and nenv <= CERT_LIMIT:
-            ccf = certfn_of(case)
+        if case["ops"] and nenv <= CERT_LIMIT:
+            ccf = CERT_VIT if case["variant"] == "vit" else certfn_of(case)
             certs.setdefault(ccf.kind, (ccf, []))[1].append((ci, (wire_case(case, res, spy, ptr)[0], case["inputs"], case["output"], next_uid(case))))
     jobs = []; order = []
     for kind, (cf, l) in list(by.items()) + list(certs.items()):
         jobs.append((cf, [v[1] for v in l], kind.replace("-", ""), 10 if tier == "quick" else 25)); order.append((cf, l))
     outs = run_jobs(jobs, seed)
-    kern = 0; verdicts = {}; cert_hist = {}
+    kern = 0; verdicts = {}; cert_hist = {}; vcert_hist = {}
     for (cf, l), (codes, nk) in zip(order, outs):
         kern += nk
         if cf.kind.startswith("c07-cert"):
-            for (ci, v), c in zip(l, codes): cert_hist[c] = cert_hist.get(c, 0) + 1
+            for (ci, v), c in zip(l, codes):
+                if cf is CERT_VIT: vcert_hist[c] = vcert_hist.get(c, 0) + 1
+                else: cert_hist[c] = cert_hist.get(c, 0) + 1
             continue
         for (ci, v, res, exc), c in zip(l, codes):
             verdicts[c] = verdicts.get(c, 0) + 1
@@ -475,7 +478,9 @@ def run(tier, seed):
                     "patterns from the typed generator (exhaustive pairs of axes for the small types on i,i-> / i,i->i); non-trivial = some operand has a non-physical axis, a diagonal or an expanded (stride-0) dimension; distinct by full case data" % n_sigs,
                signatures_enumerated=n_sigs, histogram=hist, verdicts=verdicts, kernel_reevaluated=kern,
                theorem_certificate=dict(cases=n_cert, verdicts=cert_hist,
-                                        meaning="0 = the decidable premises of C07_patterned_eq_dense hold for the case (soundness and completeness); 1 = only those of the soundness half; other = the theorem does not apply (see notes)"),
+                                        meaning="0 = the decidable premises of C07_patterned_eq_dense_partial / C07_zero_result_partial hold for the case (soundness and completeness); 1 = only those of the soundness half; other = the theorem does not apply (see notes)",
+                                        viterbi_cases=sum(vcert_hist.values()), viterbi_verdicts=vcert_hist,
+                                        viterbi_meaning="as above for the Viterbi variant, plus the premises of C07_argmax; 5 = pointer premises fail (expected exactly for repeated output indices: F24)"),
                samples=samples, open_items=OPEN_ITEMS)
     return cov, violations
 
